@@ -77,6 +77,10 @@ def gen_script(rng, t, nops=None, faults=False, misuse=False):
             # take single nodes until the allocator refuses: everything the capacity figures promise must be obtainable
             lines.append('drain %d' % (t['lns'] if t['kind'] == 'pool' else size))
             lines.append('dall %s' % rng.choice(['fwd', 'rev', 'alt', 'half']))
+        elif r < 0.895:
+            # a request aligned above what the node size guarantees must be refused (bad_alignment / null), never served misaligned
+            lst = t['lns'] if t['kind'] == 'pool' else size
+            lines.append('%s %d %d' % (rng.choice(['an', 'tn']), size if t['kind'] == 'coll' else rng.choice(sizes), min(2 * al_for(lst), 32)))
         elif r < 0.91:
             # oversize / over-aligned requests must be refused without touching anything
             big = (t['lns'] + rng.choice([1, 8, 1000])) if t['kind'] == 'pool' else (t['mx'] * 2 + rng.choice([1, 5, 1000]))
